@@ -22,6 +22,7 @@ import (
 	_ "verif/harness/c12"
 	_ "verif/harness/c13"
 	_ "verif/harness/c14"
+	_ "verif/harness/c15"
 	_ "verif/harness/c16"
 	_ "verif/harness/c18"
 	_ "verif/harness/c19"
